@@ -177,3 +177,42 @@ Proof.
       destruct (rrun _ (repeat (RMsg proc peer) n)) as [r' ps]. destruct IHn as [c [C1 [C2 [C3 C4]]]]; try lia.
       exists c. repeat split; auto; try lia.
 Qed.
+
+(* ---- two critical sections per message, all interleavings *)
+Lemma on_msg_penalty_split r proc peer : snd (on_msg r proc peer) = snd (check (inc r proc peer) proc peer).
+Proof. unfold on_msg, check, inc; cbn. rewrite !N.eqb_refl; cbn. destruct (limit r proc <? cnt r proc peer + 1); auto. Qed.
+
+Lemma on_msg_cnt_split r proc peer p q : cnt (fst (on_msg r proc peer)) p q = cnt (fst (check (inc r proc peer) proc peer)) p q.
+Proof.
+  unfold on_msg, check, inc; cbn. rewrite !N.eqb_refl; cbn.
+  destruct (limit r proc <? cnt r proc peer + 1); cbn; auto. destruct ((p =? proc)%N && (q =? peer)%N); auto.
+Qed.
+
+Definition below (r : limiter) (pre : list iev) : Prop := forall p q, cnt r p q <= incs_since_reset p q (List.rev pre).
+
+Lemma ilegal_no_penalty_gen es : forall pre r, below r pre -> ilegal (limit r) (pre ++ es) ->
+  snd (irun r es) = [].
+Proof.
+  induction es as [|e es IH]; intros pre r B L; cbn [irun]; auto.
+  assert (L' : ilegal (limit r) ((pre ++ [e]) ++ es)) by (rewrite <- app_assoc; exact L).
+  destruct e as [p q|p q|].
+  - apply (IH (pre ++ [IInc p q])); auto.
+    intros a b. rewrite rev_app_distr. cbn [List.rev app incs_since_reset inc cnt].
+    destruct ((a =? p)%N && (b =? q)%N) eqn:E.
+    + apply andb_true_iff in E. destruct E as [E1 E2]. apply N.eqb_eq in E1, E2. subst. rewrite !N.eqb_refl. cbn [andb].
+      specialize (B p q). lia.
+    + rewrite (N.eqb_sym p a), (N.eqb_sym q b), E. specialize (B a b). lia.
+  - unfold check.
+    assert (NP : limit r p <? cnt r p q = false).
+    { apply Z.ltb_ge. specialize (B p q). pose proof (L pre (ICheck p q :: es) eq_refl p q). lia. }
+    rewrite NP. specialize (IH (pre ++ [ICheck p q]) r).
+    destruct (irun r es) as [r'' ps]. cbn in *. apply IH; auto.
+    intros a b. rewrite rev_app_distr. cbn. apply B.
+  - apply (IH (pre ++ [IReset])); auto.
+    intros a b. rewrite rev_app_distr. cbn. lia.
+Qed.
+
+(* well-formed traffic within the limits is never penalised, whatever the interleaving of the goroutines between increaseCounter
+   and checkLimit (the checks may come in any order, late, doubled or not at all) *)
+Lemma legal_traffic_never_penalised_interleaved lim pen es : ilegal lim es -> snd (irun (new_limiter lim pen) es) = [].
+Proof. intros L. apply (ilegal_no_penalty_gen es []); auto. intros p q. cbn. lia. Qed.
